@@ -438,7 +438,8 @@ def table_a(n=4, ragged=False):
 
 
 def table_join(n=3):
-    return [['f0', 'g1']] + [[[1, 3, 3, 2, 5][i % 5], 'g%d' % i] for i in range(n)]
+    # (from the sixth row on: several keys beyond the largest key of table_a, one of them twice, and one below its smallest)
+    return [['f0', 'g1']] + [[[1, 3, 3, 2, 5, 7, 8, 7, 0, 5][i % 10], 'g%d' % i] for i in range(n)]
 
 
 def table_same(n=3):
